@@ -47,6 +47,7 @@ type History struct {
 	EnsureTerm bool      `json:"ensure_term"`
 	AvoidKnown bool      `json:"avoid_known"`
 	Small      bool      `json:"small"`
+	Alloc      bool      `json:"alloc"` // instantiate with a tracking experimental.MemoryAllocator
 	Mods       []ModSpec `json:"mods"`
 	Steps      []Op      `json:"steps"`
 	NInst      int       `json:"n_inst"`
@@ -75,6 +76,8 @@ func (o Op) String() string {
 		fmt.Fprintf(&sb, "passref #%d.getref(%d) -> #%d.%s(idx=%d,n=%d)", o.From, o.Which, o.Inst, o.Channel, o.Idx, o.N)
 	case "lookup":
 		fmt.Fprintf(&sb, "lookup #%d table=%d off=%d +call", o.Inst, o.N, o.Idx)
+	case "memapi":
+		fmt.Fprintf(&sb, "memapi #%d: api.Memory write/read/Grow(0)", o.Inst)
 	case "gread":
 		fmt.Fprintf(&sb, "gread #%d.%s", o.Inst, o.Name)
 	case "closemod", "drop", "hold", "callheld":
@@ -386,6 +389,7 @@ func GenHistory(seed uint64, compiler, avoidKnown bool) *History {
 	h.TwoRT = h.NRT > 1
 	h.Cache = h.CacheKind != "none"
 	h.EnsureTerm = r.Chance(1, 6)
+	h.Alloc = r.Chance(1, 4)
 	nMods := 2 + r.Intn(3)
 	if h.NRT == 2 {
 		nMods = 2 + r.Intn(2)
@@ -433,6 +437,9 @@ func GenHistory(seed uint64, compiler, avoidKnown bool) *History {
 		if (k == 0 && r.Chance(1, 2)) || (k == 1 && r.Chance(1, 6)) {
 			fs := ModSpec{K: 1 + len(h.Mods) + 10*r.Intn(9), Implicit: r.Chance(1, 3), ImpFunc: -1, ImpGlobal: -1, ImpMem: -1,
 				ImpTable: owners[r.Intn(len(owners))], Fail: 1, FailIdx: 1 + r.Intn(2)}
+			if o := h.Mods[fs.ImpTable]; !o.PrivMem && o.ImpMem < 0 && r.Bool() {
+				fs.ImpMem = fs.ImpTable // the failing importer also imports the owner's memory
+			}
 			if r.Chance(1, 3) {
 				fs.Fail = 2
 			}
@@ -611,6 +618,9 @@ func (g *gen) next(i, target int) (Op, bool) {
 		ids := g.addressable(nil)
 		if len(ids) == 0 {
 			return Op{}, false
+		}
+		if r.Chance(1, 3) {
+			return Op{Kind: "memapi", Inst: pick(r, ids), N: r.Intn(1000)}, true
 		}
 		return Op{Kind: "gread", Inst: pick(r, ids), Name: []string{"gi", "fg", "xg"}[r.Intn(3)]}, true
 	case w < 74: // close something
@@ -1577,6 +1587,13 @@ func (g *gen) annotateAndApply(m *model, op *Op) {
 			op.EntryCl, op.ClosedBefore = true, true
 		}
 		op.RelClose = m.relatedClosed(id, used)
+	case "memapi":
+		op.Observe = true
+		if m.isClosed(op.Inst) {
+			uac("host-read-on-closed-instance")
+			op.EntryCl, op.ClosedBefore = true, true
+		}
+		op.RelClose = m.relatedClosed(op.Inst, nil)
 	case "gread":
 		op.Observe = true
 		if m.isClosed(op.Inst) {
@@ -1647,6 +1664,29 @@ func ManualHistory(channel string, compiler bool) *History {
 		steps = append(steps, Op{Kind: "call", Inst: 1, Name: "chain", Args: []uint64{6, 0}, Sub: []Op{{Kind: "closemod", Inst: 0}, {Kind: "gc"}}}, // closed in flight
 			Op{Kind: "drop", Inst: 0}, Op{Kind: "gc"}, Op{Kind: "churn", N: 600}, Op{Kind: "gc"})
 		steps = append(steps, uses...)
+		for _, op := range steps {
+			g.emit(op)
+		}
+		h.NInst = len(g.m.inst)
+		return h
+	case "allocator-importer-close", "allocator-importer-fails":
+		// custom MemoryAllocator: B only imports A's memory; closing B (or B failing to instantiate) must not free it
+		h.Alloc = true
+		a.ExportTable = true
+		if channel == "allocator-importer-close" {
+			b.ImpMem = 0
+		} else {
+			b = ModSpec{K: 2, ImpFunc: -1, ImpGlobal: -1, ImpMem: 0, ImpTable: 0, Fail: 1, FailIdx: 2}
+		}
+		h.Mods = []ModSpec{a, b}
+		g := &gen{h: h, m: newModel(h)}
+		steps := []Op{{Kind: "compile", Slot: 0}, {Kind: "inst", Slot: 0, Inst: 0, Name: "m0"}, {Kind: "call", Inst: 0, Name: "mk_set", Args: []uint64{77}},
+			{Kind: "compile", Slot: 1}, {Kind: "inst", Slot: 1, Inst: 1, Name: "m1"}}
+		if channel == "allocator-importer-close" {
+			steps = append(steps, Op{Kind: "call", Inst: 1, Name: "mem_rw", Args: []uint64{5}}, Op{Kind: "closemod", Inst: 1}, Op{Kind: "drop", Inst: 1})
+		}
+		steps = append(steps, Op{Kind: "gc"}, Op{Kind: "churn", N: 300}, Op{Kind: "call", Inst: 0, Name: "mk"}, Op{Kind: "call", Inst: 0, Name: "mem_grow", Args: []uint64{1}},
+			Op{Kind: "memapi", Inst: 0, N: 9}, Op{Kind: "call", Inst: 0, Name: "mem_rw", Args: []uint64{7}})
 		for _, op := range steps {
 			g.emit(op)
 		}
